@@ -309,6 +309,10 @@ Proof.
     unfold py_lower in Hl. destruct (forallb _ v); inversion Hl; subst. f_equal. apply IH. exact Hys.
 Qed.
 
+Lemma decoder_prefs_get raw p : decoder_prefs raw = Ok p ->
+  forall q, pref_get q p = option_map (map ascii_lower_b) (pref_get q raw).
+Proof. intros H q. rewrite (decoder_prefs_spec _ _ H). apply pref_get_map_lower. Qed.
+
 (* which (quantity, preference) pairs are recognised *)
 Definition recognised_spec (p : prefs) (q : pqv) (t : target) : Prop :=
   (q = PqEnum PQ_TEMPERATURE /\ pref_get PQ_TEMPERATURE p = Some u_c /\ t = TCelsius) \/
@@ -432,3 +436,223 @@ Section UnitProofs.
     m_hash m' = m_hash m /\ m_id m' = m_id m /\ key_raws m' = key_raws m.
   Proof. intros H. apply apply_units_keeps_identity in H. tauto. Qed.
 End UnitProofs.
+
+(* ================================================================== decoder tail *)
+Section TailProofs.
+  Variable md5 : bytes -> zstr.
+  Variable py_str_float : float -> bytes.
+  Variable py_round_ndigits : float -> Z -> float.
+  Variable math_degrees : float -> float.
+  Notation finish := (finish md5 py_str_float py_round_ndigits math_degrees).
+  Notation apply_units := (apply_units py_round_ndigits math_degrees).
+
+  Definition no_prefs (c : dcfg) : dcfg := mkCfg (c_build_map c) [] (c_dump_on c) (c_dump_pgns c) (c_dump_ids c).
+
+  (* decoding with preferences = unit conversion applied to the result of decoding without (dump off) *)
+  Theorem finish_commutes c a m0 : c_dump_on c = false ->
+    finish c a m0 =
+    match finish (no_prefs c) a m0 with
+    | Ok (m, _) => do m' <- apply_units (c_prefs c) m; Ok (m', None)
+    | Err e => Err e
+    | Unmodelled => Unmodelled
+    end.
+  Proof.
+    intros H. unfold Message.finish, dump_match, no_prefs. simpl. rewrite H. simpl.
+    destruct (add_data md5 py_str_float a (c_build_map c) m0) as [m1| |]; simpl; reflexivity.
+  Qed.
+
+  (* ... and the message decoded without preferences already carries the addressing and the hash *)
+  Theorem finish_plain c a m0 m o : finish (no_prefs c) a m0 = Ok (m, o) ->
+    add_data md5 py_str_float a (c_build_map c) m0 = Ok m.
+  Proof.
+    unfold Message.finish, no_prefs. simpl.
+    destruct (add_data md5 py_str_float a (c_build_map c) m0) as [m1| |]; simpl; try discriminate.
+    destruct (dump_match _ m1) as [[|]| |]; simpl; try discriminate.
+    - destruct (to_tree m1); simpl; try discriminate. intros E; inversion E; reflexivity.
+    - intros E; inversion E; reflexivity.
+  Qed.
+End TailProofs.
+
+(* ================================================================== C15 *)
+(* ---- zstr <-> bytes *)
+Lemma fold_bytes_lower b : bytes_ok b = true -> forall a0, 1 <= a0 ->
+  a0 * 2 ^ (Z.of_nat (length b)) <= fold_left (fun a x => a * 256 + x) b a0.
+Proof.
+  induction b as [|x b IH]; intros Hb a0 Ha.
+  - simpl. lia.
+  - simpl in Hb. apply andb_true_iff in Hb. destruct Hb as [Hx Hb]. unfold byte_ok in Hx.
+    apply andb_true_iff in Hx. destruct Hx as [Hx1 Hx2]. apply Z.leb_le in Hx1. apply Z.ltb_lt in Hx2.
+    change (fold_left (fun a x => a * 256 + x) (x :: b) a0) with (fold_left (fun a x => a * 256 + x) b (a0 * 256 + x)).
+    change (length (x :: b)) with (S (length b)). rewrite Nat2Z.inj_succ, Z.pow_succ_r by lia.
+    assert (P : 0 < 2 ^ Z.of_nat (length b)) by (apply Z.pow_pos_nonneg; lia).
+    eapply Z.le_trans; [| apply IH; [assumption | lia]]. nia.
+Qed.
+
+Lemma str_bytes_aux_S n z acc :
+  str_bytes_aux (S n) z acc = if z <=? 1 then acc else str_bytes_aux n (z / 256) (z mod 256 :: acc).
+Proof. reflexivity. Qed.
+
+Lemma str_bytes_aux_fold b : bytes_ok b = true -> forall a0 acc k, 1 <= a0 ->
+  str_bytes_aux (length b + k) (fold_left (fun a x => a * 256 + x) b a0) acc = str_bytes_aux k a0 (b ++ acc).
+Proof.
+  induction b as [|x b IH] using rev_ind; intros Hb a0 acc k Ha.
+  - reflexivity.
+  - unfold bytes_ok in Hb. rewrite forallb_app in Hb. apply andb_true_iff in Hb. destruct Hb as [Hb Hx].
+    simpl in Hx. rewrite andb_true_r in Hx. unfold byte_ok in Hx.
+    apply andb_true_iff in Hx. destruct Hx as [Hx1 Hx2]. apply Z.leb_le in Hx1. apply Z.ltb_lt in Hx2.
+    rewrite fold_left_app. simpl fold_left at 1.
+    set (v := fold_left (fun a x => a * 256 + x) b a0).
+    assert (Hv : 1 <= v).
+    { pose proof (fold_bytes_lower b Hb a0 Ha) as L. fold v in L.
+      assert (0 < 2 ^ Z.of_nat (length b)) by (apply Z.pow_pos_nonneg; lia). nia. }
+    rewrite app_length. simpl length. replace (length b + 1 + k)%nat with (S (length b + k)) by lia.
+    rewrite str_bytes_aux_S.
+    destruct (v * 256 + x <=? 1) eqn:E; [apply Z.leb_le in E; lia|].
+    replace ((v * 256 + x) / 256) with v by (Z.div_mod_to_equations; lia).
+    replace ((v * 256 + x) mod 256) with x by (Z.div_mod_to_equations; lia).
+    unfold v. rewrite IH by assumption. rewrite <- app_assoc. reflexivity.
+Qed.
+
+Theorem str_bytes_roundtrip b : bytes_ok b = true -> str_bytes (bytes_str b) = b.
+Proof.
+  intros Hb. unfold str_bytes, bytes_str. set (z := fold_left (fun a x => a * 256 + x) b 1).
+  pose proof (fold_bytes_lower b Hb 1 ltac:(lia)) as L. rewrite Z.mul_1_l in L. fold z in L.
+  assert (P : 0 < 2 ^ Z.of_nat (length b)) by (apply Z.pow_pos_nonneg; lia).
+  assert (Hz : 0 < z) by lia.
+  assert (Hl : Z.of_nat (length b) <= Z.log2 z) by (apply Z.log2_le_pow2; assumption).
+  replace (S (Z.to_nat (Z.log2 z))) with (length b + (S (Z.to_nat (Z.log2 z)) - length b))%nat by lia.
+  unfold z. rewrite str_bytes_aux_fold by (assumption || lia). rewrite app_nil_r.
+  match goal with |- str_bytes_aux ?k _ _ = _ => destruct k; reflexivity end.
+Qed.
+
+(* ---- renderings are byte strings *)
+Lemma byte_ok_intro x : 0 <= x < 256 -> byte_ok x = true.
+Proof. intros H. unfold byte_ok. apply andb_true_iff. split; [apply Z.leb_le | apply Z.ltb_lt]; lia. Qed.
+Lemma hexd_ok n : 0 <= n < 16 -> byte_ok (hexd n) = true.
+Proof. intros H. apply byte_ok_intro. unfold hexd. destruct (n <? 10) eqn:E; [apply Z.ltb_lt in E | apply Z.ltb_ge in E]; lia. Qed.
+Lemma hex_bytes_ok b : bytes_ok b = true -> bytes_ok (hex_bytes b) = true.
+Proof.
+  induction b as [|x b IH]; intros H; [reflexivity|].
+  change (bytes_ok (x :: b)) with (byte_ok x && bytes_ok b) in H.
+  apply andb_true_iff in H. destruct H as [Hx Hb]. unfold byte_ok in Hx. apply andb_true_iff in Hx.
+  destruct Hx as [H1 H2]. apply Z.leb_le in H1. apply Z.ltb_lt in H2.
+  change (hex_bytes (x :: b)) with ([hexd (x / 16); hexd (x mod 16)] ++ hex_bytes b).
+  unfold bytes_ok. rewrite forallb_app. fold (bytes_ok (hex_bytes b)). rewrite (IH Hb).
+  change (forallb byte_ok [hexd (x / 16); hexd (x mod 16)]) with (byte_ok (hexd (x / 16)) && (byte_ok (hexd (x mod 16)) && true)).
+  assert (A : 0 <= x / 16 < 16) by (Z.div_mod_to_equations; lia).
+  assert (B : 0 <= x mod 16 < 16) by (Z.div_mod_to_equations; lia).
+  rewrite (hexd_ok _ A), (hexd_ok _ B). reflexivity.
+Qed.
+Lemma dig2_ok n : 0 <= n < 100 -> bytes_ok (dig2 n) = true.
+Proof.
+  intros H. unfold dig2.
+  assert (A : 0 <= 48 + n / 10 < 256) by (Z.div_mod_to_equations; lia).
+  assert (B : 0 <= 48 + n mod 10 < 256) by (Z.div_mod_to_equations; lia).
+  change (bytes_ok [48 + n / 10; 48 + n mod 10]) with (byte_ok (48 + n / 10) && (byte_ok (48 + n mod 10) && true)).
+  rewrite (byte_ok_intro _ A), (byte_ok_intro _ B). reflexivity.
+Qed.
+Lemma dig4_ok n : 0 <= n < 10000 -> bytes_ok (dig4 n) = true.
+Proof.
+  intros H. unfold dig4.
+  assert (A : 0 <= 48 + n / 1000 < 256) by (Z.div_mod_to_equations; lia).
+  assert (B : 0 <= 48 + (n / 100) mod 10 < 256) by (Z.div_mod_to_equations; lia).
+  assert (C : 0 <= 48 + (n / 10) mod 10 < 256) by (Z.div_mod_to_equations; lia).
+  assert (D : 0 <= 48 + n mod 10 < 256) by (Z.div_mod_to_equations; lia).
+  change (bytes_ok [48 + n / 1000; 48 + (n / 100) mod 10; 48 + (n / 10) mod 10; 48 + n mod 10])
+    with (byte_ok (48 + n / 1000) && (byte_ok (48 + (n / 100) mod 10) && (byte_ok (48 + (n / 10) mod 10) && (byte_ok (48 + n mod 10) && true)))).
+  rewrite (byte_ok_intro _ A), (byte_ok_intro _ B), (byte_ok_intro _ C), (byte_ok_intro _ D). reflexivity.
+Qed.
+Lemma bytes_ok_app a b : bytes_ok (a ++ b) = bytes_ok a && bytes_ok b.
+Proof. apply forallb_app. Qed.
+
+Lemma civil_md_bounds days : let '(y, m, d) := civil days in 1 <= m <= 12 /\ 1 <= d <= 31.
+Proof.
+  unfold civil.
+  set (z := days + 719468). set (doe := z mod 146097).
+  assert (Hdoe : 0 <= doe < 146097) by (apply Z.mod_pos_bound; lia).
+  clearbody doe. clear z.
+  set (yoe := (doe - doe / 1460 + doe / 36524 - doe / 146096) / 365).
+  set (doy := doe - (365 * yoe + yoe / 4 - yoe / 100)).
+  assert (Hdoy : 0 <= doy <= 365) by (unfold doy, yoe; Z.div_mod_to_equations; lia).
+  clearbody doy.
+  set (mp := (5 * doy + 2) / 153).
+  assert (Hmp : 0 <= mp <= 11) by (unfold mp; Z.div_mod_to_equations; lia).
+  assert (Hd : 1 <= doy - (153 * mp + 2) / 5 + 1 <= 31) by (unfold mp; Z.div_mod_to_equations; lia).
+  clearbody mp.
+  destruct (mp <? 10) eqn:E; [apply Z.ltb_lt in E | apply Z.ltb_ge in E]; split; lia.
+Qed.
+
+Lemma iso_date_ok d s : iso_date d = Ok s -> bytes_ok s = true.
+Proof.
+  unfold iso_date. pose proof (civil_md_bounds d) as B. destruct (civil d) as [[y m] dd].
+  change ((if (1 <=? y) && (y <=? 9999) then Ok (dig4 y ++ [45] ++ dig2 m ++ [45] ++ dig2 dd) else Unmodelled) = Ok s
+          -> bytes_ok s = true).
+  destruct ((1 <=? y) && (y <=? 9999)) eqn:E; [|discriminate]. intros H.
+  assert (Hs : dig4 y ++ [45] ++ dig2 m ++ [45] ++ dig2 dd = s) by congruence. subst s.
+  apply andb_true_iff in E. destruct E as [E1 E2]. apply Z.leb_le in E1. apply Z.leb_le in E2.
+  rewrite !bytes_ok_app. rewrite dig4_ok, !dig2_ok by lia. reflexivity.
+Qed.
+Lemma iso_time_ok t s : iso_time t = Ok s -> bytes_ok s = true.
+Proof.
+  unfold iso_time. destruct ((0 <=? t) && (t <? 86400)) eqn:E; [|discriminate]. intros H.
+  assert (Hs : dig2 (t / 3600) ++ [58] ++ dig2 ((t mod 3600) / 60) ++ [58] ++ dig2 (t mod 60) = s) by congruence. subst s.
+  apply andb_true_iff in E. destruct E as [E1 E2]. apply Z.leb_le in E1. apply Z.ltb_lt in E2.
+  rewrite !bytes_ok_app. rewrite !dig2_ok by (Z.div_mod_to_equations; lia). reflexivity.
+Qed.
+
+(* ---- leaves *)
+Definition text_ok (v : value) : bool := match v with VText s | VBytes s => bytes_ok s | _ => true end.
+
+Lemma value_roundtrip v t : text_ok v = true -> value_tree v = Ok t ->
+  exists v', render v = Ok v' /\ t_value t = Ok v'.
+Proof.
+  destruct v; simpl; intros W H.
+  - inversion H; subst. eexists; split; reflexivity.
+  - unfold j_int in H. destruct (_ && _); inversion H; subst. eexists; split; reflexivity.
+  - inversion H; subst. unfold j_float. destruct (Message.is_finite f); eexists; split; reflexivity.
+  - inversion H; subst. simpl. rewrite str_bytes_roundtrip by exact W. eexists; split; reflexivity.
+  - inversion H; subst. simpl. rewrite str_bytes_roundtrip by (apply hex_bytes_ok; exact W). eexists; split; reflexivity.
+  - destruct (iso_date days) as [s| |] eqn:E; simpl in H; inversion H; subst. simpl.
+    rewrite str_bytes_roundtrip by (eapply iso_date_ok; eassumption). eexists; split; reflexivity.
+  - destruct (iso_time secs) as [s| |] eqn:E; simpl in H; inversion H; subst. simpl.
+    rewrite str_bytes_roundtrip by (eapply iso_time_ok; eassumption). eexists; split; reflexivity.
+Qed.
+
+Lemma t_ostr_j_ostr o : t_ostr (j_ostr o) = Ok o.
+Proof. destruct o; reflexivity. Qed.
+Definition pq_parsed (q : pqv) : pqv := match q with PqNone => PqNone | PqEnum n | PqList n => PqList n end.
+Definition ty_parsed (t : tyv) : tyv := match t with TyEnum n | TyList n => TyList n end.
+Lemma t_pq_tree q : t_pq (pq_tree q) = Ok (pq_parsed q).
+Proof. destruct q; reflexivity. Qed.
+Lemma t_ty_tree t : t_ty (ty_tree t) = Ok (ty_parsed t).
+Proof. destruct t; reflexivity. Qed.
+
+(* ---- fields *)
+Definition field_wf (f : field) : bool := bytes_ok (f_id f) && text_ok (f_value f) && text_ok (f_raw f).
+(* a field and its image under to_json / from_json *)
+Definition field_rt (f f' : field) : Prop :=
+  f_id f' = f_id f /\ f_name f' = f_name f /\ f_descr f' = f_descr f /\ f_unit f' = f_unit f /\
+  render (f_value f) = Ok (f_value f') /\ render (f_raw f) = Ok (f_raw f') /\
+  f_pq f' = pq_parsed (f_pq f) /\ f_type f' = ty_parsed (f_type f) /\ f_pk f' = f_pk f.
+
+Lemma field_obj_of a1 a2 a3 a4 a5 a6 a7 a8 a9 :
+  field_of_tree (JObj [(k_id, a1); (k_name, a2); (k_description, a3); (k_unit, a4); (k_value, a5); (k_raw_value, a6);
+                       (k_pq, a7); (k_type, a8); (k_pk, a9)])
+  = do i <- t_str a1; do n <- t_ostr a2; do d <- t_ostr a3; do u <- t_ostr a4; do v <- t_value a5;
+    do r <- t_value a6; do q <- t_pq a7; do ty <- t_ty a8; do pk <- t_bool a9;
+    Ok (mkField (str_bytes i) n d u v r q ty pk).
+Proof. reflexivity. Qed.
+
+Lemma field_roundtrip f t : field_wf f = true -> field_tree f = Ok t ->
+  exists f', field_of_tree t = Ok f' /\ field_rt f f'.
+Proof.
+  unfold field_wf, field_tree. intros W H.
+  apply andb_true_iff in W. destruct W as [W Wr]. apply andb_true_iff in W. destruct W as [Wi Wv].
+  apply bind_ok in H. destruct H as [v [Hv H]]. apply bind_ok in H. destruct H as [r [Hr H]].
+  inversion H; subst; clear H.
+  destruct (value_roundtrip _ _ Wv Hv) as [v' [Rv Tv]]. destruct (value_roundtrip _ _ Wr Hr) as [r' [Rr Tr]].
+  exists (mkField (f_id f) (f_name f) (f_descr f) (f_unit f) v' r' (pq_parsed (f_pq f)) (ty_parsed (f_type f)) (f_pk f)).
+  split; [| unfold field_rt; simpl; repeat split; assumption].
+  rewrite field_obj_of. rewrite !t_ostr_j_ostr, Tv, Tr, t_pq_tree, t_ty_tree.
+  unfold t_str, t_bool, bind. rewrite str_bytes_roundtrip by exact Wi. reflexivity.
+Qed.
